@@ -231,6 +231,8 @@ def one_history(ctx, gen, hno):
                     t = t2
                     for _ in range(rng.randint(1, 3)):
                         treegen.mutate(t, rng, gen)
+                if rng.random() < 0.3:
+                    treegen.decorate_like_import(rng, t)
                 before = dict(Node.store)
                 rb = reach(t)
                 history.append([op, snapshot.to_plain(t)])
@@ -245,6 +247,8 @@ def one_history(ctx, gen, hno):
                     held.append(t)
             elif op == "expand":
                 t, k = tree_with_references(rng, noref_gen())
+                if rng.random() < 0.3:
+                    treegen.decorate_like_import(rng, t)
                 before = dict(Node.store)
                 rb = reach(t)
                 history.append([op, snapshot.to_plain(t)])
